@@ -407,7 +407,7 @@ func c08RunIdx(c *core.Ctx, k c08IdxCase) {
 		c.Violatef("lock-left-held:"+k.Method+":"+cls, desc, "%s returned with the stack's lock still held (the next locking call would never return)", desc["call"])
 		return
 	}
-	unchanged := Diff(before, after, DiffOpts{}) == ""
+	unchanged := Diff(before, after, DiffOpts{Raw: true}) == ""
 	pos, addr := m.Resolve(k.I)
 	posJ, addrJ := m.Resolve(k.J)
 	plainI := k.I >= 0 && k.I < L
